@@ -231,7 +231,8 @@ def check(case):
             val, J = X.jac(o['ast'], env, wrt)
             _, T = X.jac(o['ast'], env, wrt, am=True)
             txt = np.asarray(X.eval_text(o['ast'], env), dtype=float)
-            if txt.shape != val.shape or not np.array_equal(txt, val):
+            # (the two evaluations may differ in the last bit, e.g. x*x*x against x ** 3)
+            if txt.shape != val.shape or not np.allclose(txt, val, rtol=1e-13, atol=1e-300, equal_nan=True):
                 raise AssertionError(f"harness: AST interpreter and NumPy text rendering disagree: {X.render(o['ast'], 'np')}")
             if not np.all(np.isfinite(val)):
                 raise AssertionError(f"harness: generated expression is not finite: {X.render(o['ast'])}")
